@@ -1,29 +1,26 @@
 import Driver.Proto
-import PqModel.Search
+import Driver.Ops.C06
 
-open Driver
-
+/-! pqdriver: one request per line on stdin, one answer per line on stdout.
+    Each property registers its ops in `Driver/Ops/<id>.lean` as
+    `handle : List String → Option String` (`none` = not my op). -/
 namespace Driver
 
-/-- one request line -> one response line; never defaults an unparsable request -/
-def handle (toks : List String) : String :=
+def handlers : List (List String → Option String) := [
+  Ops.C06.handle
+]
+
+/-- never defaults an unparsable request -/
+def dispatch (toks : List String) : String :=
   match toks with
   | ["ping"] => "ok pong"
-  -- find <asc 0/1> <zero-rank> <mins> <maxs> <v>   (bounds: int or n)
-  | ["find", asc, z, mins, maxs, v] =>
-    match parseList? parseOptInt? mins, parseList? parseOptInt? maxs, parseInt? v, parseInt? z with
-    | some mn, some mx, some v, some z =>
-      let ix : PqModel.Search.Index := { mins := mn, maxs := mx }
-      if mn.length ≠ mx.length then "bad-op" else
-      s!"ok {PqModel.Search.find (asc == "1") ix v} {PqModel.Search.writerOrder z ix}"
-    | _, _, _, _ => "bad-op"
-  | _ => "bad-op"
+  | _ => (handlers.findSome? (· toks)).getD "bad-op"
 
 partial def loop (hin hout : IO.FS.Stream) : IO Unit := do
   let line ← hin.getLine
   if line.isEmpty then return ()
   let toks := (line.trimAscii.toString.splitOn " ").filter (· ≠ "")
-  hout.putStrLn (handle toks)
+  hout.putStrLn (dispatch toks)
   hout.flush
   loop hin hout
 
